@@ -30,6 +30,12 @@ type Obligation struct {
 	Witness []WitnessVar // terms whose model values make a replayable input
 	Replay  string       // replay class: orderlaw, ...
 	Meta    map[string]string
+	Parts   []Part // conjuncts of Goal (split on failure)
+}
+
+type Part struct {
+	Name string
+	Goal string
 }
 
 // WitnessVar names a term of the obligation whose value is read back from a model.
@@ -70,6 +76,7 @@ type Exec struct {
 	typeIDs    map[string]int
 	promoted   map[*Obj]string
 	freshRefs  []string
+	entryRefs  []string
 	mapObjs    map[string]*Obj
 	mapOrigin  map[*Obj]mapOrig
 	globals    map[string]*Obj
@@ -85,9 +92,11 @@ type Exec struct {
 	CallHook   func(ex *Exec, st *State, fn *ssa.Function, args []Val) ([]Outcome, bool)
 	MaxPaths   int
 	paths      int
+	FuncTables map[string]*FuncTable
 	GhostSort  map[string]string
 	InitGhost  map[string]string
 	oldNames   map[string]string
+	specAxiomsLoaded bool
 	selfFn     *ssa.Function
 	entryOld   *State
 	NoLemmaAxioms map[string]bool
@@ -111,7 +120,7 @@ func NewExec(prog *load.Program, cs *contract.Set, tables map[string]Val) *Exec 
 		typeIDs: map[string]int{}, promoted: map[*Obj]string{}, mapObjs: map[string]*Obj{}, mapOrigin: map[*Obj]mapOrig{},
 		globals: map[string]*Obj{}, globalInit: map[string]Val{}, globalInitPC: map[string][]string{},
 		GlobalWrites: map[string]bool{}, GlobalReads: map[string]bool{}, pureAxioms: map[string]bool{},
-		NoLemmaAxioms: map[string]bool{}, GhostSort: map[string]string{}, oldNames: map[string]string{}, tableArrs: map[string]string{},
+		NoLemmaAxioms: map[string]bool{}, FuncTables: map[string]*FuncTable{}, GhostSort: map[string]string{}, oldNames: map[string]string{}, tableArrs: map[string]string{},
 		MaxPaths: 20000, UsedTrusted: map[string]bool{}, UsedContracts: map[string]bool{}, Inlined: map[string]bool{},
 	}
 }
@@ -174,6 +183,9 @@ func (ex *Exec) note(format string, a ...interface{}) {
 func (ex *Exec) pos(p token.Pos) string { return ex.Prog.Pos(p) }
 
 func relOf(fn *ssa.Function) string {
+	if fn.Pkg == nil && fn.Origin() != nil {
+		return relOf(fn.Origin())
+	}
 	if fn.Pkg == nil {
 		return ""
 	}
@@ -300,6 +312,16 @@ func (ex *Exec) execBlock(st *State, b *ssa.BasicBlock, prev *ssa.BasicBlock) []
 			ex.assignPhis(st, b, prev)
 			if rec.Spec {
 				return []Outcome{{St: st, Msg: "spec-backedge"}}
+			}
+			if rec.Unroll > 0 {
+				if rec.Count >= rec.Unroll+1 {
+					ex.AddObl(st, "safety", fmt.Sprintf("loop%d/unwinding-assertion", ord), ex.pos(firstPos(b)), smt.False)
+					return nil
+				}
+				nr := *rec
+				nr.Count++
+				st.Fr.Loops[b] = &nr
+				return ex.execFrom(st, b, ex.firstNonPhi(b))
 			}
 			ex.loopBackEdge(st, b, ord, rec)
 			return nil
@@ -1082,6 +1104,17 @@ func (ex *Exec) lookup(st *State, in *ssa.Lookup) Val {
 		return v
 	case *Table:
 		return ex.tableLookup(st, x, ex.value(st, in.Index), in.CommaOk)
+	case *FuncTable:
+		k := ex.value(st, in.Index).(Str).T
+		fc := FuncChoice{Table: x, Key: k}
+		var ds []string
+		for _, key := range x.Keys {
+			ds = append(ds, smt.Eq(k, ex.StrLit(key)))
+		}
+		if in.CommaOk {
+			return Tuple{fc, Bool{smt.Or(ds...)}}
+		}
+		return fc
 	case Opaque:
 		outside("lookup in unmodelled value: %s", x.Why)
 	}
@@ -1145,50 +1178,193 @@ func (ex *Exec) tableLookup(st *State, t *Table, key Val, commaOk bool) Val {
 	if !ok {
 		outside("lookup in non-map table %s", t.Name)
 	}
-	data, ok := t.Data.(map[string]interface{})
+	kt := ex.scalar(st, key)
+	keys := append(append([]string(nil), t.Keys...), kt)
+	allLit := true
+	var lits []string
+	for _, k := range keys {
+		if mustSort(mt.Key()) == "Int" && len(keys) == 1 {
+			allLit = false
+			break
+		}
+		l, isLit := ex.litValue(k)
+		if !isLit {
+			allLit = false
+			break
+		}
+		lits = append(lits, l)
+	}
+	if allLit {
+		// static resolution along the literal key path
+		var cur interface{} = t.Root()
+		present := true
+		for _, l := range lits {
+			m, isMap := cur.(map[string]interface{})
+			if !isMap {
+				present = false
+				break
+			}
+			v, has := m[l]
+			if !has {
+				present = false
+				break
+			}
+			cur = v
+		}
+		var res Val
+		if present {
+			res = ex.tableValue(st, t.Name+"["+strings.Join(lits, "][")+"]", cur, mt.Elem())
+			if tt, isT := res.(*Table); isT {
+				tt.RootData, tt.Keys, tt.Name = t.Root(), keys, t.Name
+				tt.KeySorts = append(append([]string(nil), t.KeySorts...), mustSort(mt.Key()))
+			}
+		} else {
+			res = ex.Zero(st, mt.Elem())
+		}
+		if commaOk {
+			return Tuple{res, Bool{smt.Bool(present)}}
+		}
+		return res
+	}
+	// symbolic key(s)
+	if _, isMap := mt.Elem().Underlying().(*types.Map); isMap {
+		sub := &Table{Name: t.Name, Data: nil, RootData: t.Root(), Typ: mt.Elem(), Keys: keys, KeySorts: append(append([]string(nil), t.KeySorts...), mustSort(mt.Key()))}
+		if commaOk {
+			return Tuple{sub, Bool{ex.tableHas(sub)}}
+		}
+		return sub
+	}
+	leaf := &Table{Name: t.Name, RootData: t.Root(), Typ: mt.Elem(), Keys: keys, KeySorts: append(append([]string(nil), t.KeySorts...), mustSort(mt.Key()))}
+	res := ex.tableLeaf(st, leaf)
+	if commaOk {
+		return Tuple{res, Bool{ex.tableHas(leaf)}}
+	}
+	return res
+}
+
+func (t *Table) Root() interface{} {
+	if t.RootData != nil {
+		return t.RootData
+	}
+	return t.Data
+}
+
+// enumerate all key paths of the given depth in a nested JSON object
+func enumPaths(v interface{}, depth int, prefix []string, f func(path []string, leaf interface{})) {
+	if depth == 0 {
+		f(prefix, v)
+		return
+	}
+	m, ok := v.(map[string]interface{})
 	if !ok {
-		outside("table %s is not a JSON object", t.Name)
+		return
 	}
-	// constant key: resolve statically
-	if ks, isStr := key.(Str); isStr {
-		if lit, ok := ex.litValue(ks.T); ok {
-			v, present := data[lit]
-			var res Val
-			if present {
-				res = ex.tableValue(st, t.Name+"["+lit+"]", v, mt.Elem())
-			} else {
-				res = ex.Zero(st, mt.Elem())
-			}
-			if commaOk {
-				return Tuple{res, Bool{smt.Bool(present)}}
-			}
-			return res
+	ks := make([]string, 0, len(m))
+	for k := range m {
+		ks = append(ks, k)
+	}
+	sort.Strings(ks)
+	for _, k := range ks {
+		enumPaths(m[k], depth-1, append(append([]string(nil), prefix...), k), f)
+	}
+}
+
+func (ex *Exec) keyTerm(sort, lit string) string {
+	if sort == "Int" {
+		return lit
+	}
+	return ex.StrLit(lit)
+}
+
+func (ex *Exec) tableFn(t *Table, suffix string) string {
+	return fmt.Sprintf("tbl_%s_%d%s", strings.NewReplacer("/", "_", ".", "_").Replace(t.Name), len(t.Keys), suffix)
+}
+
+// tableHas: the key path is present in the dumped table.
+func (ex *Exec) tableHas(t *Table) string {
+	fn := ex.tableFn(t, "_has")
+	if !ex.Ctx.Has(fn) {
+		ex.Ctx.Declare(fn, t.KeySorts, "Bool")
+		ex.Ctx.Define(fn, "")
+		var vars [][2]string
+		var vs []string
+		for i, s := range t.KeySorts {
+			v := fmt.Sprintf("k%d", i)
+			vars = append(vars, [2]string{v, s})
+			vs = append(vs, v)
 		}
+		var ds []string
+		enumPaths(t.Root(), len(t.Keys), nil, func(path []string, leaf interface{}) {
+			var cs []string
+			for i, p := range path {
+				cs = append(cs, smt.Eq(vs[i], ex.keyTerm(t.KeySorts[i], p)))
+			}
+			ds = append(ds, smt.And(cs...))
+		})
+		app := smt.App(fn, vs...)
+		ex.Ctx.AddAxiom(smt.Forall(vars, smt.Eq(app, smt.Or(ds...)), app))
 	}
-	vs, okv := SortOf(mt.Elem())
+	return smt.App(fn, t.Keys...)
+}
+
+// tableLeaf: value at a (partly) symbolic key path, as functions of the keys with one
+// axiom per concrete path of the dump (absent paths read as the zero value).
+func (ex *Exec) tableLeaf(st *State, t *Table) Val {
+	var vars [][2]string
+	var vs []string
+	for i, s := range t.KeySorts {
+		v := fmt.Sprintf("k%d", i)
+		vars = append(vars, [2]string{v, s})
+		vs = append(vs, v)
+	}
+	has := ex.tableHas(t)
+	if sl, isSlice := t.Typ.Underlying().(*types.Slice); isSlice {
+		fa, fl := ex.tableFn(t, "_arr"), ex.tableFn(t, "_len")
+		if !ex.Ctx.Has(fa) {
+			ex.Ctx.Declare(fa, t.KeySorts, ArrSort(sl.Elem()))
+			ex.Ctx.Declare(fl, t.KeySorts, "Int")
+			ex.Ctx.Define(fa, "")
+			enumPaths(t.Root(), len(t.Keys), nil, func(path []string, leaf interface{}) {
+				var ks []string
+				for i, p := range path {
+					ks = append(ks, ex.keyTerm(t.KeySorts[i], p))
+				}
+				arr, _ := leaf.([]interface{})
+				ex.Ctx.AddAxiom(smt.Eq(smt.App(fl, ks...), fmt.Sprint(len(arr))))
+				for i, e := range arr {
+					ev := ex.tableValue(st, t.Name, e, sl.Elem())
+					ex.Ctx.AddAxiom(smt.Eq(smt.Sel(smt.App(fa, ks...), fmt.Sprint(i)), term(ev)))
+				}
+			})
+			app := smt.App(fl, vs...)
+			hasApp := smt.App(ex.tableFn(t, "_has"), vs...)
+			ex.Ctx.AddAxiom(smt.Forall(vars, smt.And(smt.Ge(app, "0"), smt.Imp(smt.Not(hasApp), smt.Eq(app, "0"))), app))
+		}
+		_ = has
+		return Slice{Arr: smt.App(fa, t.Keys...), Len: smt.App(fl, t.Keys...), Elem: sl.Elem(), B: ex.newBacking()}
+	}
+	vsort, okv := SortOf(t.Typ)
 	if !okv {
-		outside("symbolic lookup in table %s with non-scalar values", t.Name)
+		outside("table %s: leaf type %s not modelled", t.Name, t.Typ)
 	}
-	ksort := mustSort(mt.Key())
-	fname := "tbl_" + strings.ReplaceAll(t.Name, "/", "_")
-	dname := fname + "_has"
-	if !ex.Ctx.Has(fname) {
-		keys := make([]string, 0, len(data))
-		for k := range data {
-			keys = append(keys, k)
-		}
-		sort.Strings(keys)
-		body := zeroTerm(vs)
-		dom := smt.False
-		for i := len(keys) - 1; i >= 0; i-- {
-			var kt string
-			if ksort == "Int" {
-				kt = keys[i]
-			} else {
-				kt = ex.StrLit(keys[i])
+	fn := ex.tableFn(t, "")
+	if !ex.Ctx.Has(fn) {
+		ex.Ctx.Declare(fn, t.KeySorts, vsort)
+		ex.Ctx.Define(fn, "")
+		body := zeroTerm(vsort)
+		var paths [][]string
+		var leaves []interface{}
+		enumPaths(t.Root(), len(t.Keys), nil, func(path []string, leaf interface{}) {
+			paths = append(paths, path)
+			leaves = append(leaves, leaf)
+		})
+		for i := len(paths) - 1; i >= 0; i-- {
+			var cs []string
+			for j, p := range paths[i] {
+				cs = append(cs, smt.Eq(vs[j], ex.keyTerm(t.KeySorts[j], p)))
 			}
 			var vt string
-			switch v := data[keys[i]].(type) {
+			switch v := leaves[i].(type) {
 			case float64:
 				vt = smt.Int(int64(v))
 			case string:
@@ -1198,22 +1374,12 @@ func (ex *Exec) tableLookup(st *State, t *Table, key Val, commaOk bool) Val {
 			default:
 				outside("table %s value kind", t.Name)
 			}
-			body = "(ite (= k " + kt + ") " + vt + " " + body + ")"
-			dom = "(or (= k " + kt + ") " + dom + ")"
+			body = smt.Ite(smt.And(cs...), vt, body)
 		}
-		// literals must be declared before the table functions: emit as axioms over declared funs
-		f := ex.Ctx.Declare(fname, []string{ksort}, vs)
-		d := ex.Ctx.Declare(dname, []string{ksort}, "Bool")
-		ex.Ctx.Define(fname, "")
-		ex.Ctx.AddAxiom("(forall ((k " + ksort + ")) (! (= (" + f + " k) " + body + ") :pattern ((" + f + " k))))")
-		ex.Ctx.AddAxiom("(forall ((k " + ksort + ")) (! (= (" + d + " k) " + dom + ") :pattern ((" + d + " k))))")
+		app := smt.App(fn, vs...)
+		ex.Ctx.AddAxiom(smt.Forall(vars, smt.Eq(app, body), app))
 	}
-	kt := ex.scalar(st, key)
-	res := wrapTerm(mt.Elem(), smt.App(fname, kt))
-	if commaOk {
-		return Tuple{res, Bool{smt.App(dname, kt)}}
-	}
-	return res
+	return wrapTerm(t.Typ, smt.App(fn, t.Keys...))
 }
 
 func (ex *Exec) litValue(term string) (string, bool) {
